@@ -282,20 +282,23 @@ PROPERTIES["C10"] = dict(
     engine="kani",
     technique="bounded model checking of the compiled parsers (Kani/CBMC/CaDiCaL) + symbolic execution of the BMFF header parsers' SOURCE "
               "(syn AST -> bit-vector SMT, z3) with panic/overflow obligations",
-    smt=dict(module="props_c10", K=6, N=24, timeout_ms=600000),
+    smt=dict(module="props_c10", extra_modules=["props_c10j"], K=6, N=24, timeout_ms=600000),
     level_text=("Bounded model checking of named header/chunk parsers over EVERY byte string up to the stated length (and every declared "
                 "size up to u64::MAX where the format has one): CBMC discharges Kani's built-in checks on the compiled code -- no "
                 "panic, no arithmetic overflow (dev profile), no out-of-bounds access, no unreachable!, and termination within the "
                 "unwinding bound. Crafted size fields are exactly the rare inputs that sampling misses."),
-    level_note=("Only the named kernels: JUMBF BoxReader::read_header and format sniffing (Kani), BMFF BoxHeaderLite::read, read_ftyp_box and the "
-                "small BMFF seek/skip helpers (Engine Z over an in-memory stream model; the Kani harnesses for them time out), the PNG chunk "
+    level_note=("Only the named kernels: JUMBF BoxReader::read_header and format sniffing (Kani), BMFF BoxHeaderLite::read, read_ftyp_box (24/32-byte "
+                "streams and one 300/600-byte stream for the brand loop) and the small BMFF seek/skip helpers, and the JUMBF box readers "
+                "BoxReader::read_desc_box, read_json_box, read_cbor_box with read_to_vec (40/64-byte streams, every start position, every declared "
+                "u64 size) (Engine Z over an in-memory stream model; the Kani harnesses for them time out), the PNG chunk "
                 "scanner (Kani, thorough). Most of the property -- nesting limits, decompression bombs, CBOR/COSE/"
                 "ASN.1/XML/ID3 parsing, allocation and time budgets, release-profile wrapping -- cannot be executed symbolically here and is "
                 "outside the claim. Trusted: Kani, CBMC, CaDiCaL."),
-    scope="BoxReader::read_header; jumbf_io::container_from_stream; bmff_io BoxHeaderLite::read, read_ftyp_box, read_box_header_ext, meta_box_lacks_fullbox_header, _skip_bytes, skip_bytes_to; png_io get_png_chunk_positions; over Cursor<&[u8]>",
+    scope="BoxReader::read_header, read_desc_box, read_json_box, read_cbor_box, unread_bytes; io_utils read_to_vec; jumbf_io::container_from_stream; bmff_io BoxHeaderLite::read, read_ftyp_box, read_box_header_ext, meta_box_lacks_fullbox_header, _skip_bytes, skip_bytes_to; png_io get_png_chunk_positions; over Cursor<&[u8]>",
     outside=["every other parser of the SDK (CBOR, COSE, X.509/ASN.1, XML, ID3, TIFF IFDs, GIF blocks, RIFF, JPEG segments)",
              "recursion/nesting limits, decompression limits, allocation budgets, time budgets", "release-profile (wrapping) arithmetic",
-             "inputs longer than 24/32 bytes"],
+             "inputs longer than the per-kernel bounds (16..64 bytes; 300/600 for the ftyp brand loop)",
+             "JUMBF super-box recursion (read_super_box) and the brotli / embedded-file / uuid box readers"],
     assumptions=_TRUST,
     harnesses=[
         H("c10::c10_jumbf_read_header_total", unwind=26, timeout=600, what="all streams of 0..=24 bytes", bounds="24 bytes; --unwind 26",
